@@ -59,6 +59,8 @@ structure RunTables where
   writes : M2MWrites
   /-- `BasicIndivEntryLink`: (method, loop direction, per-entry method called) -/
   indivLoops : List (String × LoopDir × String)
+  /-- public methods of `ValuePresolverImpl`: (method, run function it calls, `BasicLink` method whose pointer it passes as `fn`) -/
+  entryPoints : List (String × String × String)
 
 def kindName : Kind → String
   | .generic => "GenericDbl"
@@ -71,7 +73,7 @@ def dirName : Dir → String
   | .pre => "Presolve"
   | .post => "Postsolve"
 
-/-- the member function `fn` passed to `RunPresolve` / `RunPostsolve` by `Presolve<kind>` / `Postsolve<kind>` -/
+/-- the public method of `ValuePresolverImpl` a call of the model stands for; also the name of the `BasicLink` method of that kind -/
 def methodName (d : Dir) (k : Kind) : String := dirName d ++ kindName k
 
 def orderBy {α : Type} (d : LoopDir) (l : List α) : List α :=
@@ -142,11 +144,13 @@ def execHelperEntry (w : M2MWrites) (p : HelperProg) (e : Entry) (S : St) : St :
   | .m2m s d => execPrim w p s d S
   | .r2s _ _ _ _ => S
 
-/-- `(br.b_.*fn)(br.ir_)` for one link range: virtual dispatch on the class of the link; `none` = not translatable / raises -/
-def execRange (T : RunTables) (d : Dir) (k : Kind) (r : LRange) (S : St) : Option St :=
+/-- `(br.b_.*fn)(br.ir_)` for one link range, `fn` = the NAME of the `BasicLink` method whose pointer was passed: virtual dispatch on
+    the class of the link; `none` = not translatable / raises.  The per-entry methods of `RangeCon2Slack` have the meaning of the
+    model's `preEntry k` / `postEntry k` exactly when they are the `<dir><kind>Entry` ones (`C04_gen_r2s_presolve/_postsolve`). -/
+def execRange (T : RunTables) (fn : String) (d : Dir) (k : Kind) (r : LRange) (S : St) : Option St :=
   match r.cls with
   | .r2sLink =>
-    match lookupIndiv T (methodName d k) with
+    match lookupIndiv T fn with
     | none => none
     | some (ld, callee) =>
       if callee = methodName d k ++ "Entry" then
@@ -155,13 +159,13 @@ def execRange (T : RunTables) (d : Dir) (k : Kind) (r : LRange) (S : St) : Optio
         | .post => runEntriesPost k (orderBy ld r.entries) S
       else none
   | c =>
-    match lookupProg T c (methodName d k) with
+    match lookupProg T c fn with
     | none => none
     | some p => some ((orderBy p.dir r.entries).foldl (fun S e => execHelperEntry T.writes p e S) S)
 
-def execRanges (T : RunTables) (d : Dir) (k : Kind) : List LRange → St → Option St
+def execRanges (T : RunTables) (fn : String) (d : Dir) (k : Kind) : List LRange → St → Option St
   | [], S => some S
-  | r :: rs, S => (execRange T d k r S).bind (execRanges T d k rs)
+  | r :: rs, S => (execRange T fn d k r S).bind (execRanges T fn d k rs)
 
 /-- the side the argument of a call is loaded to / the result is read from -/
 def Dir.inSide : Dir → Side
@@ -172,16 +176,29 @@ def Dir.outSide : Dir → Side
   | .post => .src
 
 /-- run the statements; the result is the memory at `return` (`none`: raised, no `return`, or a side that is not the call's) -/
-def execStmts (T : RunTables) (g : Graph) (ranges : List LRange) (c : Call) : List RunStmt → St → Option St
+def execStmts (T : RunTables) (g : Graph) (ranges : List LRange) (fn : String) (c : Call) : List RunStmt → St → Option St
   | [], _ => none
-  | .cleanNodes :: rest, S => execStmts T g ranges c rest (cleanReg g S)
-  | .load s :: rest, S => if s = c.dir.inSide then execStmts T g ranges c rest (loadInto S g.size c.inputs) else none
-  | .loopRanges d :: rest, S => (execRanges T c.dir c.kind (orderBy d ranges) S).bind (execStmts T g ranges c rest)
+  | .cleanNodes :: rest, S => execStmts T g ranges fn c rest (cleanReg g S)
+  | .load s :: rest, S => if s = c.dir.inSide then execStmts T g ranges fn c rest (loadInto S g.size c.inputs) else none
+  | .loopRanges d :: rest, S => (execRanges T fn c.dir c.kind (orderBy d ranges) S).bind (execStmts T g ranges fn c rest)
   | .ret s :: _, S => if s = c.dir.outSide then some S else none
 
-/-- `Presolve<kind>(mv)` = `RunPresolve(&BasicLink::Presolve<kind>, mv)`, `Postsolve<kind>(mv)` likewise -/
+def lookupEntry (T : RunTables) (m : String) : Option (String × String) :=
+  (T.entryPoints.find? (fun t => t.1 == m)).map (·.2)
+
+/-- the body of the run function a public method names -/
+def runProg (T : RunTables) (run : String) : Option (List RunStmt) :=
+  if run = "RunPresolve" then some T.runPre else if run = "RunPostsolve" then some T.runPost else none
+
+/-- a call of the public method `<dir><kind>(mv)`: its translated body `return <run>(&BasicLink::<fn>, mv);` says which run function
+    is executed and which link method is applied to every range -/
 def execRun (T : RunTables) (sizes : List Nat) (ranges : List LRange) (prev : St) (c : Call) : Option St :=
   let g : Graph := ⟨(ranges.map (·.entries)).flatten, sizes⟩
-  execStmts T g ranges c (match c.dir with | .pre => T.runPre | .post => T.runPost) prev
+  match lookupEntry T (methodName c.dir c.kind) with
+  | none => none
+  | some (run, fn) =>
+    match runProg T run with
+    | none => none
+    | some prog => execStmts T g ranges fn c prog prev
 
 end MpVerif.C04
